@@ -5,9 +5,11 @@ import functools
 import itertools
 import math
 import operator
+import os
 import pathlib
 import pickle
 import random
+import threading
 from functools import lru_cache, partial, reduce
 from operator import or_
 
@@ -670,9 +672,15 @@ class DiskDict:
             if len(k) > 1:
                 # ensure subparent directories exist
                 fname.parent.mkdir(parents=True, exist_ok=True)
-            # write file!
-            with open(fname, "wb+") as f:
+            # write file! first to a temporary sibling which is then moved
+            # into place atomically, so that a writer that dies half way never
+            # leaves a partial entry under the name that readers look up
+            tmp = fname.with_name(
+                f"{fname.name}.tmp-{os.getpid()}-{threading.get_ident()}"
+            )
+            with open(tmp, "wb") as f:
                 pickle.dump(v, f)
+            os.replace(tmp, fname)
 
     def __getitem__(self, k):
         try:
@@ -696,15 +704,16 @@ class DiskDict:
                     with open(fname, "rb") as f:
                         self._mem_cache[k] = v = pickle.load(f)
                         return v
-                except (EOFError, pickle.UnpicklingError) as e:
+                except (EOFError, pickle.UnpicklingError):
                     # file was not written completely yet
                     # e.g. by another process
                     import time
 
                     time.sleep(self.retry_delay)
 
-            # file exists but there is some other error after retrying
-            raise e
+            # file exists but is still not readable after retrying
+            # -> treat the entry as missing
+            raise KeyError(k)
 
 
 def get_rng(seed=None):
